@@ -205,6 +205,11 @@ def native_remove_innovation_battery(seed=0):
     cases.append((1.5, np.array([[2.0], [0.0]]), np.array([[2.0, 0.5], [0.5, 1.0]]), True, "NIS 8.0 > 5.0 (non-identity S_inv)"))
     cases.append((1.5, np.array([[1.0], [1.0]]), np.array([[2.0, 0.5], [0.5, 1.0]]), False, "NIS 4.0 < 5.0 (off-diagonal terms count)"))
     cases.append((None, np.array([[10.0], [10.0]]), I2, False, "filtering disabled"))
+    # a threshold is a number: a whole one may arrive as an int or a numpy integer (Optional[float] admits both)
+    cases.append((2, np.array([[1.0], [2.5]]), I2, True, "integer threshold 2: NIS 7.25 > 2*2+2 = 6.0"))
+    cases.append((np.int64(2), np.array([[1.0], [2.5]]), I2, True, "numpy integer threshold 2: NIS 7.25 > 6.0"))
+    cases.append((np.float32(1.5), np.array([[1.0], [2.5]]), I2, True, "float32 threshold 1.5: NIS 7.25 > 5.0"))
+    cases.append((2, np.array([[1.0], [2.0]]), I2, False, "integer threshold 2: NIS 5.0 < 6.0"))
     for k_edit, nu, sinv, want, label in cases:
         try:
             py, ekf = scenarios.build_ekf(sc, config={"innovation_filtering": k_edit})
@@ -237,7 +242,7 @@ def ulp_boundary_grid(sc, seed=0):
 
     problems = []
     one = scenarios.Scenario(2, 0, 1, [1], seed=seed)
-    for k_edit in (0.25, 0.5, 1.0, 1.5, 2.0, 3.0, 5.0, 0.1, 7.3):
+    for k_edit in (0.25, 0.5, 1.0, 1.5, 2.0, 3.0, 5.0, 0.1, 7.3, 2, np.int64(3), np.float64(0.75)):
         try:
             py, ekf = scenarios.build_ekf(one, config={"innovation_filtering": k_edit})
         except Exception as e:
